@@ -1,7 +1,6 @@
 package c10
 
 import (
-	"encoding/json"
 	"fmt"
 	"os"
 	"path/filepath"
@@ -491,54 +490,27 @@ func FuzzParse(f *testing.F) {
 // ---------------------------------------------------------------------------
 // replay
 
-func TestReplay(t *testing.T) {
-	p := vt.ReplayPath()
-	if p == "" {
-		t.Skip("no replay requested")
-	}
-	replayFile(t, p)
-}
-
-func replayFile(t *testing.T, p string) {
-	rf, err := vt.LoadReplay(p)
-	if err != nil {
-		t.Fatalf("HARNESS: %v", err)
-	}
+func replayCase(rf *vt.ReplayFile) error {
 	switch rf.Sub {
 	case "roundtrip":
 		var c rtCase
-		if err := json.Unmarshal(rf.Case, &c); err != nil {
-			t.Fatalf("HARNESS: %v", err)
+		if err := vt.Decode(rf, &c); err != nil {
+			return err
 		}
-		if err := runRoundTrip(&c); err != nil {
-			t.Fatalf("C10/roundtrip: %v", err)
-		}
+		return runRoundTrip(&c)
 	case "bytes", "constants", "fuzz":
 		var c bytesCase
-		if err := json.Unmarshal(rf.Case, &c); err != nil {
-			t.Fatalf("HARNESS: %v", err)
+		if err := vt.Decode(rf, &c); err != nil {
+			return err
 		}
-		if _, err := runBytes(&c, func(msg string) { fmt.Println(msg); os.Exit(1) }); err != nil {
-			t.Fatalf("C10/%s: %v", rf.Sub, err)
-		}
-	default:
-		t.Fatalf("HARNESS: unknown sub %q", rf.Sub)
+		_, err := runBytes(&c, func(msg string) { fmt.Println(msg); os.Exit(1) })
+		return err
 	}
+	return fmt.Errorf("HARNESS: unknown sub %q", rf.Sub)
 }
 
-// TestCorpus replays every committed regression case of this property.
-func TestCorpus(t *testing.T) {
-	if vt.ReplayPath() != "" {
-		t.Skip("replay mode")
-	}
-	dir := os.Getenv("VERIF_CORPUS")
-	files, _ := filepath.Glob(filepath.Join(dir, "*.json"))
-	for _, f := range files {
-		f := f
-		t.Run(filepath.Base(f), func(t *testing.T) { replayFile(t, f) })
-		vt.Class("corpus", "replayed")
-	}
-}
+func TestReplay(t *testing.T) { vt.RunReplay(t, replayCase) }
+func TestCorpus(t *testing.T) { vt.RunCorpus(t, replayCase) }
 
 // fixed regression cases for the round trip (findings fixed in casket; see known_findings.json)
 var rtConstants = []rtCase{
